@@ -355,7 +355,44 @@ func genXfers(c *ctx, max int) []vmcommon.OutputTransfer {
 	return l
 }
 
+// genSparseOA: an account in which only one or two fields carry a change (e.g. ONLY a higher nonce, ONLY a zero delta, ONLY an empty
+// storage map, ONLY a clearing storage update): the merge must still apply that one change
+func genSparseOA(c *ctx) *vmcommon.OutputAccount {
+	a := &vmcommon.OutputAccount{}
+	for n := 1 + c.rng.Intn(2); n > 0; n-- {
+		switch c.rng.Intn(9) {
+		case 0:
+			a.Nonce = uint64(1 + c.rng.Intn(9))
+		case 1:
+			a.BalanceDelta = big.NewInt(0)
+		case 2:
+			a.BalanceDelta = big.NewInt(int64(c.rng.Intn(7) - 3))
+		case 3:
+			a.Balance = big.NewInt(int64(c.rng.Intn(3)))
+		case 4:
+			a.StorageUpdates = map[string]*vmcommon.StorageUpdate{}
+		case 5: // a clearing update (empty data) and an update with data
+			k := []byte{byte('a' + c.rng.Intn(3))}
+			a.StorageUpdates = map[string]*vmcommon.StorageUpdate{string(k): {Offset: k, Data: nil}}
+			if c.rng.Intn(2) == 0 {
+				k2 := []byte{byte('a' + c.rng.Intn(3))}
+				a.StorageUpdates[string(k2)] = &vmcommon.StorageUpdate{Offset: k2, Data: []byte{byte(c.rng.Intn(3))}}
+			}
+		case 6:
+			a.Address = []byte{byte(1 + c.rng.Intn(3))}
+		case 7:
+			a.CodeMetadata = []byte{byte(c.rng.Intn(8)), byte(c.rng.Intn(4))}
+		default:
+			a.GasUsed = uint64(c.rng.Intn(5))
+		}
+	}
+	return a
+}
+
 func genOA(c *ctx) *vmcommon.OutputAccount {
+	if c.rng.Intn(5) == 0 {
+		return genSparseOA(c)
+	}
 	a := &vmcommon.OutputAccount{}
 	if c.rng.Intn(4) != 0 {
 		a.Address = []byte{byte(1 + c.rng.Intn(3))}
